@@ -111,18 +111,11 @@ Definition j1_run (d : osm) (r : Z * bool * list feature) : bool :=
 (* judgement 2 for one run, given the two baselines *)
 Definition sub_opts (b : Z) : opts :=
   {| noID := Z.testbit b 0; noMeta := Z.testbit b 1; noRelM := Z.testbit b 2; inclInvalid := false |}.
-(* W completeness: every way the relation pass did not absorb (the model's skippable set, the
-   hypothesis of C17_way_geometry) and that has two resolvable coordinates has a feature *)
-Definition ways_complete (o : opts) (d : osm) (fs : list feature) : bool :=
-  let skip := skippable Mputil.join Mputil.ring_of o d in
-  forallb (fun w => if negb (memZ (w_id w) skip) && (2 <=? List.length (spec_coords d w))%nat
-                    then existsb (fun f => key_eqb (fkey f) (TWay, w_id w)) fs else true) (ways d).
-
 Definition j2_run (d : osm) (base0 : list feature) (base8 : option (list feature))
            (r : Z * bool * list feature) : bool :=
   let '(b, same, fs) := r in
   let o := opts_of_bits b in
-  same && keys_unique fs && run_ok o d fs && ways_complete o d fs &&
+  same && keys_unique fs && run_ok o d fs &&
   (if Z.testbit b 3
    then match base8 with
         | Some b8 => subtracts (sub_opts b) b8 fs
